@@ -182,6 +182,13 @@ def make(case):
         return stix2.parse(case["data"], allow_custom=case.get("allow", False))
     cls = find_class(case["cid"])
     data = case["data"]
+    if case.get("deep"):
+        # a custom property whose value nests `depth` levels (built here: the case stays small and replayable)
+        dp = case["deep"]
+        v = dp.get("leaf", 1)
+        for _ in range(dp["depth"]):
+            v = {"k": v} if dp["shape"] == "dict-chain" else [v] if dp["shape"] == "list-chain" else {"k": [v], "n": 0}
+        data = dict(data, **{dp["name"]: v})
     if case.get("prebuilt"):
         # nested values handed over as library OBJECTS built beforehand (under allow_custom=True), deepest first
         import copy
@@ -432,6 +439,15 @@ def observe(case):
         obs.append(o)
         try:
             text = obj.serialize(**kw(opts))
+        except RecursionError:
+            if case.get("deep"):
+                # a writer that runs out of stack on this depth has not accepted the object under this option set:
+                # nothing to read back (the pretty writer needs more stack per level than the compact one)
+                obs.pop()
+                out.setdefault("deep_not_written", []).append(opts)
+                continue
+            o["ser_err"] = "RecursionError"
+            continue
         except Exception as e:  # noqa: BLE001
             o["ser_err"] = type(e).__name__ + ": " + str(e)[:200]
             continue
@@ -531,14 +547,23 @@ def const_defaults_for_type(t):
 
 
 def jeq(a, b):
-    """JSON value equality that keeps bool/int/float apart (Python's == does not)"""
-    if type(a) is not type(b):
-        return False
-    if isinstance(a, dict):
-        return a.keys() == b.keys() and all(jeq(a[k], b[k]) for k in a)
-    if isinstance(a, list):
-        return len(a) == len(b) and all(jeq(x, y) for x, y in zip(a, b))
-    return a == b
+    """JSON value equality that keeps bool/int/float apart (Python's == does not); iterative: values may nest deeply"""
+    todo = [(a, b)]
+    while todo:
+        a, b = todo.pop()
+        if type(a) is not type(b):
+            return False
+        if isinstance(a, dict):
+            if a.keys() != b.keys():
+                return False
+            todo.extend((a[k], b[k]) for k in a)
+        elif isinstance(a, list):
+            if len(a) != len(b):
+                return False
+            todo.extend(zip(a, b))
+        elif a != b:
+            return False
+    return True
 
 
 def extras(full, small, path, acc, bad):
@@ -550,14 +575,15 @@ def extras(full, small, path, acc, bad):
         for k, v in full.items():
             if k not in small:
                 acc.append((path, full, k, v))
-            else:
+            elif not jeq(v, small[k]):          # equal subtrees (possibly very deep) are not descended into
                 extras(v, small[k], path + [k], acc, bad)
     elif isinstance(full, list) and isinstance(small, list):
         if len(full) != len(small):
             bad.append(path)
         else:
             for i, (x, y) in enumerate(zip(full, small)):
-                extras(x, y, path + [i], acc, bad)
+                if not jeq(x, y):
+                    extras(x, y, path + [i], acc, bad)
     elif not jeq(full, small):
         bad.append(path)
 
